@@ -321,6 +321,8 @@ class Gen:
         if v.dtype in INTS:
             if op in ("Div", "Mod"):
                 w = self._second(v, nonzero=True)
+                if op == "Mod" and self.chance(5):
+                    return self.emit(op, [v, w], fmod=1)  # C-style remainder on integers (sign of the dividend)
                 return self.emit(op, [v, w])
             if op in ("Pow", "PRelu"):
                 op = "Add"
@@ -934,7 +936,7 @@ class Gen:
             self._prev_branch = tb
         return self.emit("If", [cond], n_out=k, subgraph_free=parent_vis, then_branch=tb, else_branch=eb)
 
-    def g_loop(self):
+    def g_loop(self, reuse=False):
         vis = self.visible(lambda v: v.dtype in (F32, F64, I64))
         if not vis:
             return
@@ -1003,6 +1005,20 @@ class Gen:
             [_value_info(it.name, it.arr), _value_info(cin.name, cin.arr)] + [_value_info(s.name, s.arr, unknown=True) for s in svals],
             [_value_info(cout.name, cout.arr)] + [_value_info(v.name, v.arr, unknown=True) for v in new_state] + [_value_info(v.name, v.arr, unknown=True) for v in scan],
             initializer=sub.inits)
+        if self.cfg.get("sibling_names", True):
+            # loop bodies are disjoint scopes: let this body reuse the local names (formal inputs included) of an earlier Loop body
+            prev = self.__dict__.get("_prev_body")
+            if prev is not None and (reuse or self.chance(5)):
+                mp = dict(zip([i.name for i in body.input], [i.name for i in prev.input]))
+                pi, po = _local_names(prev)
+                bi, bo = _local_names(body)
+                mp.update(zip(bi, pi))
+                mp.update(zip(bo, po))
+                used = set(mp.values())
+                if len(used) == len(mp):  # (injective: two different locals must not be merged)
+                    _rename_graph(body, mp)
+                    self.features.add("Loop:cousin_names_reused")
+            self._prev_body = body
         if trip_kind == "none" and ck != "lt":
             trip_kind = "const"
         if trip_kind == "const":
